@@ -240,6 +240,33 @@ package data
 //@     invariant -1 <= rangeindex && rangeindex < len(ps) || rangeindex == -1
 //@     decreases len(ps) - rangeindex
 
+// The tombstone reading used by Edge.IsTombstone (a deleted edge is one whose tombstone point reads exactly 1 through
+// FloatToBool; callers that need the parity reading use Points.Find directly) - under contract so that a caller
+// switching between the two readings is checked against its own postcondition instead of being rejected as unanchored.
+//@ func FloatToBool
+//@   props C06
+//@   local v float64#1
+//@   ensures [C06] result == (v == 1.0)
+//@ func (*Points).Value
+//@   props C06
+//@   local ps *data.Points#1
+//@   local typ string#1
+//@   local key string#2
+//@   requires ps != nil
+//@   ensures [C06] bits64(res0) == bits64(findValue(*ps, typ, key))
+//@ func (*Points).ValueBool
+//@   props C06
+//@   local ps *data.Points#1
+//@   local typ string#1
+//@   local key string#2
+//@   requires ps != nil
+//@   ensures [C06] res0 == (findValue(*ps, typ, key) == 1.0)
+//@ func (*Edge).IsTombstone
+//@   props C06
+//@   local e *data.Edge#1
+//@   requires e != nil
+//@   ensures [C06] result == (findValue(e.Points, "tombstone", "") == 1.0)
+
 //@ func (*Points).Text
 //@   props C09
 //@   local ps *data.Points#1
